@@ -157,3 +157,35 @@ def check_all_as_args(vals: Tuple[int, int, int], npos: int, perm: Tuple[int, in
     args = vals[:npos]
     kw = {NAMES[i]: vals[i] for i in perm if i >= npos}
     return all_as_args(args, kw, arg_names=NAMES)
+
+
+def _f_defaults(q, a=-2, m=-3):
+    return (q, a, m)
+
+
+def _f_kw_defaults(q, *, a=-2, m=-3):
+    return (q, a, m)
+
+
+def check_only_kwargs_defaults(vals: Tuple[int, int, int], present: Tuple[bool, bool, bool], kwonly: bool) -> Tuple[int, int, int]:
+    """
+    parameters WITH default values: a call that leaves one out is rejected (never silently re-bound),
+    a complete call binds every value to the parameter of the same name
+    post: (_ == (0, 0, 0) and not all(present)) or (_ == vals and all(present))
+    """
+    f = _f_kw_defaults if kwonly else _f_defaults
+    kwargs = {NAMES[i]: vals[i] for i in (2, 0, 1) if present[i]}
+    try:
+        return allow_only_kwargs(f)(**kwargs)
+    except ValueError:
+        return (0, 0, 0) if not all(present) else (-1, -1, -1)
+
+
+def check_allow_args_defaults(vals: Tuple[int, int, int], npos: int) -> Tuple[int, int, int]:
+    """
+    pre: 0 <= npos <= 3
+    post: _ == vals
+    """
+    args = vals[:npos]
+    kw = {NAMES[i]: vals[i] for i in range(npos, 3)}
+    return allow_args(_f_kw_defaults)(*args, **kw)
